@@ -91,61 +91,47 @@ impl <T: ArrayElement> ArrayBroadcast<T> for Array<T> {
 
     fn broadcast(&self, other: &Self) -> Result<Array<Tuple2<T, T>>, ArrayError> {
         self.get_shape()?.is_broadcastable(&other.get_shape()?)?;
-        if self.get_shape()? == other.get_shape()? {
-            return self.get_elements()?.into_iter()
-                .zip(other.get_elements()?)
-                .map(|(a, b)| Tuple2(a, b))
-                .collect::<Array<Tuple2<T, T>>>()
-                .reshape(&self.get_shape()?);
-        }
 
         let final_shape = self.broadcast_shape(&other.get_shape()?)?;
-
-        let inner_arrays_self = self.extract_inner_arrays();
-        let inner_arrays_other = other.extract_inner_arrays();
-
-        let output_elements = inner_arrays_self.iter().cycle()
-            .zip(inner_arrays_other.iter().cycle())
-            .flat_map( | (inner_self, inner_other) | match (inner_self.len(), inner_other.len()) {
-                (1, _) => inner_self.iter().cycle()
-                    .zip(inner_other.iter())
-                    .take(final_shape[final_shape.len() - 1])
-                    .map(|(a, b) | Tuple2(a.clone(), b.clone()))
-                    .collect::< Vec < _ > > (),
-                (_, 1) => inner_self.iter()
-                    .zip(inner_other.iter().cycle())
-                    .take(final_shape[final_shape.len() - 1])
-                    .map(|(a, b) | Tuple2(a.clone(), b.clone()))
-                    .collect::<Vec < _ > > (),
-                _ => inner_self.iter().cycle()
-                    .zip(inner_other.iter().cycle())
-                    .take(final_shape[final_shape.len() - 1])
-                    .map(|(a, b) | Tuple2(a.clone(), b.clone()))
-                    .collect::< Vec< _ > > (),
-            })
-            .take(final_shape.iter().product())
-            .collect:: < Vec<_ > > ();
-
-        Array::new(output_elements, final_shape)
+        let this = self.broadcast_to(final_shape.clone())?;
+        let other = other.broadcast_to(final_shape.clone())?;
+        this.get_elements()?.into_iter()
+            .zip(other.get_elements()?)
+            .map(|(a, b)| Tuple2(a, b))
+            .collect::<Array<Tuple2<T, T>>>()
+            .reshape(&final_shape)
     }
 
     fn broadcast_to(&self, shape: Vec<usize>) -> Result<Self, ArrayError> {
         self.get_shape()?.is_broadcastable(&shape)?;
 
-        if self.get_shape()?.iter().product::<usize>() == shape.iter().product::<usize>() {
+        if self.shape == shape { return Ok(self.clone()) }
+        // trailing axes are aligned; a source axis is stretched only when its length is one
+        let stretchable = self.shape.len() <= shape.len() && self.shape.iter().rev()
+            .zip(shape.iter().rev())
+            .all(|(&dim, &target)| dim == 1 || dim == target);
+        if stretchable {
+            let offset = shape.len() - self.shape.len();
+            let output_elements: Vec<T> = (0..shape.iter().product::<usize>())
+                .map(|index| {
+                    let (mut rest, mut source_index, mut stride) = (index, 0, 1);
+                    for (axis, &target) in shape.iter().enumerate().rev() {
+                        let coord = rest % target;
+                        rest /= target;
+                        if axis >= offset {
+                            let dim = self.shape[axis - offset];
+                            if dim != 1 { source_index += coord * stride; }
+                            stride *= dim;
+                        }
+                    }
+                    self.elements[source_index].clone()
+                })
+                .collect();
+            Self::new(output_elements, shape)
+        } else if self.get_shape()?.iter().product::<usize>() == shape.iter().product::<usize>() {
             self.reshape(&shape)
         } else {
-            let output_elements: Vec<T> = self.elements
-                .chunks_exact(self.shape[self.shape.len() - 1])
-                .flat_map(|inner| inner.iter()
-                    .cycle()
-                    .take(shape[shape.len() - 1])
-                    .cloned())
-                .cycle()
-                .take(shape.iter().product())
-                .collect();
-
-            Self::new(output_elements, shape)
+            Err(ArrayError::BroadcastShapeMismatch)
         }
     }
 
@@ -207,7 +193,7 @@ impl <T: ArrayElement> Array<T> {
                 else { Err(ArrayError::BroadcastShapeMismatch) }
             })
             .collect::<Vec<Result<usize, ArrayError>>>()
-            .has_error()?.iter()
+            .has_error()?.iter().rev()
             .map(|a| *a.as_ref().unwrap())
             .collect();
         Ok(result)
@@ -244,16 +230,6 @@ impl <T: ArrayElement> Array<T> {
 
         if is_compatible { Ok(common_shape.into_iter().rev().collect()) }
         else { Err(ArrayError::BroadcastShapeMismatch) }
-    }
-
-    fn extract_inner_arrays(&self) -> Vec<Vec<T>> {
-        match self.shape.len() {
-            1 => vec![self.elements.clone()],
-            _ => self.elements
-                .chunks_exact(*self.shape.last().unwrap())
-                .map(Vec::from)
-                .collect(),
-        }
     }
 
     pub(crate) fn broadcast_h2<S: ArrayElement>(&self, other: &Array<S>) -> Result<TupleH2<T, S>, ArrayError> {
